@@ -6,6 +6,7 @@ import (
 	"math/rand"
 	"strings"
 	"sync"
+	"verifharness/gadget"
 
 	"github.com/consensys/gnark/frontend"
 	gl "github.com/wormhole-foundation/example-near-light-client/goldilocks"
@@ -132,3 +133,45 @@ func shortSite(site string) string {
 }
 
 type instT = inst.Instance
+
+// compiledIO is one input/expected-output pair for a gadget compiled with gnark's builders.
+type compiledIO struct {
+	In, Out []*big.Int
+	Reject  bool // the inputs must NOT be satisfiable together with Out (or at all)
+}
+
+// compiledAgree compiles fn with the real builder of sys and checks with the real solver
+// that (In, Out) is accepted (or refused when Reject), and that Out with one value changed is
+// refused. Catches what only a real builder does (in-place updates of linear expressions,
+// constant folding, boolean marking), which no evaluation engine can see.
+func compiledAgree(o *fw.Outcome, sys, label string, fn gadget.Fn, nIn, nOut int, ios []compiledIO) (fw.Outcome, bool) {
+	cc, err := gadget.Compile(sys, fn, nIn, nOut, gadget.PadCommit, nil)
+	if err != nil {
+		return fw.Violate("compile_fails:"+label+":"+sys, trunc(err.Error(), 200)), true
+	}
+	for k, io := range ios {
+		err := cc.Solve(io.In, io.Out)
+		if io.Reject {
+			if err == nil {
+				return fw.Violate("compiled_system_accepts_wrong_input:"+label+":"+sys, fmt.Sprintf("case #%d", k)), true
+			}
+			o.Inc("compiled_" + sys + "_" + label + "_rejected")
+			continue
+		}
+		if err != nil {
+			return fw.Violate("compiled_system_rejects_reference_values:"+label+":"+sys, fmt.Sprintf("case #%d: %s", k, trunc(err.Error(), 200))), true
+		}
+		if len(io.Out) > 0 {
+			bad := append([]*big.Int(nil), io.Out...)
+			j := (k * 7) % len(bad)
+			bad[j] = new(big.Int).Add(bad[j], big.NewInt(1))
+			if err := cc.Solve(io.In, bad); err == nil {
+				return fw.Violate("compiled_system_accepts_wrong_output:"+label+":"+sys, fmt.Sprintf("case #%d output %d", k, j)), true
+			}
+		}
+		o.Inc("compiled_" + sys + "_" + label + "_agreed")
+		o.Events += 2
+	}
+	o.Add("compiled_"+sys+"_"+label+"_constraints", cc.CS.GetNbConstraints())
+	return fw.Outcome{}, false
+}
